@@ -6,16 +6,38 @@ components insignificant (1.10 == 1.10.0 > 1.9)."""
 from __future__ import annotations
 
 
+import re as _re
+
+_V = _re.compile(r"^\s*v?(?:(\d+)!)?(\d+(?:\.\d+)*)(?:[-._]?(a|b|c|rc|alpha|beta|pre|preview)[-._]?(\d*))?(?:(?:[-._]?(?:post|rev|r)[-._]?(\d*))|-(\d+))?(?:[-._]?dev[-._]?(\d*))?"
+                 r"(?:\+([a-z0-9]+(?:[-._][a-z0-9]+)*))?\s*$", _re.I)
+_INF = float("inf")
+
+
 def vkey(v: str):
-    try:
-        parts = [int(p) for p in str(v).split(".")]
-    except ValueError:
-        # a version with a pre-release / post-release / development / local / epoch part: this reference does not order those
-        # (the workloads give each of them a name of its own); equal spellings compare equal
-        return ("unordered", str(v).strip())
+    """Version-number order written from the version specification (PEP 440), without the library: epoch, release numbers
+    (trailing zeros insignificant), then development < alpha < beta < candidate < final < post-release."""
+    m = _V.match(str(v))
+    if not m:
+        raise ValueError("not a version: %r" % (v,))
+    epoch, rel, pre_l, pre_n, post_n, post_dash, dev_n, local = m.groups()
+    parts = [int(p) for p in rel.split(".")]
     while parts and parts[-1] == 0:
         parts.pop()
-    return tuple(parts)
+    pre = None
+    if pre_l:
+        pre = ({"a": 0, "alpha": 0, "b": 1, "beta": 1, "c": 2, "rc": 2, "pre": 2, "preview": 2}[pre_l.lower()], int(pre_n or 0))
+    post = int(post_n or 0) if (post_n is not None) else int(post_dash) if post_dash is not None else None
+    dev = int(dev_n or 0) if dev_n is not None else None
+    if pre is None and post is None and dev is not None:
+        pre_key = (-1, 0)          # X.devN sorts before every pre-release of X
+    elif pre is None:
+        pre_key = (3, 0)           # a final (or post) release sorts after its pre-releases
+    else:
+        pre_key = pre
+    post_key = -1 if post is None else post
+    dev_key = _INF if dev is None else dev
+    local_key = () if local is None else tuple((1, int(p)) if p.isdigit() else (0, p.lower()) for p in _re.split(r"[-._]", local))
+    return (int(epoch or 0), tuple(parts), pre_key, post_key, dev_key, local_key)
 
 
 def resolve(seq, name=lambda d: d[0], version=lambda d: d[1]):
